@@ -281,6 +281,30 @@ func (w *Rec) Write(p []byte) (int, error) {
 	return w.Body.Write(p)
 }
 
+// WriteString and ReadFrom exist on net/http's response writer too (wrappers that forward them reach these).
+func (w *Rec) WriteString(s string) (int, error) { return w.Write([]byte(s)) }
+
+func (w *Rec) ReadFrom(r io.Reader) (int64, error) {
+	var total int64
+	buf := make([]byte, 4096)
+	for {
+		n, err := r.Read(buf)
+		if n > 0 {
+			k, werr := w.Write(buf[:n])
+			total += int64(k)
+			if werr != nil {
+				return total, werr
+			}
+		}
+		if err == io.EOF {
+			return total, nil
+		}
+		if err != nil {
+			return total, err
+		}
+	}
+}
+
 func (w *Rec) Flush() {
 	if !w.Committed {
 		w.WriteHeader(200)
